@@ -211,7 +211,8 @@ for V_kw in V_kws:
         V_v = V_loc[V_kw][()]
         ...
 ''', 'V_args[V_kw] = V_v', 'return V_k(**V_args)'],
-             binding={'V_loc': ps[0], 'V_id': ps[2], 'V_pt': ps[3]})
+             binding={'V_loc': ps[0], 'V_id': ps[2], 'V_pt': ps[3]},
+             under=['V_pt is None', 'V_kw in V_repl', 'V_kw in V_keys'])
     site = UH + '::get_klass_args'
     with R.guard('1.loader.args', 'TAB', site, 'keyword list'):
         f = ix.func(site)
